@@ -19,7 +19,7 @@ def gen_tree(rng: random.Random, depth, labels, ops=None):
         if r < 0.2 and labels:
             return ('label', rng.choice(labels))
         if r < 0.3:
-            return ('char', rng.choice('azAZ09 +*#@~'))
+            return ('char', rng.choice('azAZ09 +*#@~,()!?'))
         k = rng.random()
         if k < 0.5:
             return ('num', rng.randint(0, 20))
